@@ -499,4 +499,36 @@ func init() {
 		Assumptions: append([]string{"encoding/json Marshal+Unmarshal = tag-driven structural clone (engine/sym/models_json.go)", "time.Now arbitrary; UpdatedAt excluded from the comparison as the statement says"}, commonAssumptions...),
 		Explanation: "relational step harness: in-memory game vs. table.NativeBackend (real cloneState/NewGameFromState/op/cloneState) from the same symbolic wait-point state",
 	})
+
+	register(&PropSpec{
+		ID: "C03", Pkgs: []string{"combination"},
+		Jobs: func(tier string) []sym.Job {
+			var js []sym.Job
+			runs := [][]int{{0, 0}}
+			if tier == "thorough" {
+				runs = [][]int{{0, 0}, {1, 1}, {1, 0}}
+			}
+			for _, r := range runs {
+				js = append(js, sym.Job{Pkg: "combination", Harness: "Harness_C03_Factor", Args: []int{r[0], r[1]}, Cfg: sym.JobConfig{MaxSteps: 3000000}})
+				for i1 := 0; i1 < 9; i1++ {
+					for i2 := i1; i2 < 9; i2++ {
+						js = append(js, sym.Job{Pkg: "combination", Harness: "Harness_C03_Mono", Args: []int{r[0], r[1], i1, i2}, Cfg: sym.JobConfig{MaxSteps: 3000000}})
+					}
+				}
+			}
+			return js
+		},
+		AssertPrefix: []string{"C03."},
+		Covers:       func(tier string) []string { return []string{"C03.factor", "C03.mono", "C03.wheel"} },
+		Bounds: func(tier string) []string {
+			b := []string{"standard ranking table on the 52-card deck: step 1 (factorisation) for every hand of five different cards in every input order; step 2 (monotonicity) for every ordered pair of categories and every pair of valid tuples", "no bound inside the domain: every hand and, through the decomposition, every pair of hands is covered"}
+			if tier == "thorough" {
+				b = append(b, "also the short-deck table on the 36-card deck (A-9-8-7-6 excluded: its class is left open by the statement) and the short-deck table on the 52-card deck")
+			}
+			return b
+		},
+		Outside:     []string{"card strings other than the 52 valid ones; hands with repeated cards", "quick tier: the short-deck table (thorough tier)", "the float arithmetic of CalculatePowerScore outside the proven exact range (range obligations are discharged on every path)"},
+		Assumptions: append([]string{"math.Pow(13, k) evaluated concretely for concrete k; float64(rank-2)*13^k lowered to exact integer arithmetic under a discharged range obligation", "sort.Slice: the toolchain's real algorithm drives the interpreted less"}, commonAssumptions...),
+		Explanation: "combination.CalculatePower executed symbolically on symbolic cards; pairwise order decomposed into factorisation through a reference tuple written from the rules plus monotonicity on canonical hands",
+	})
 }
